@@ -1,6 +1,6 @@
 CONSTANTS
   NFiles = 4
-  Templates = {"S", "SEA", "C", "SC", "TieS", "TieE", "Ref"}
+  Templates = {"S", "SEA", "C", "SC", "Conly", "TieS", "TieE", "Ref"}
   SortConsts = TRUE
 INIT Init
 NEXT Next
